@@ -83,6 +83,7 @@ def check(prog: Program, run: Run) -> None:
     _recording(prog, run)
     _both_directions(prog, run)
     _case_coverage(prog, run)
+    _decoded_value_source(prog, run)
     _same_walk(prog, run)
     _terminator(prog, run)
     from . import c02
@@ -93,6 +94,9 @@ def check(prog: Program, run: Run) -> None:
     run_as(run, "C02.R3", "C01.R8", lambda r: c02._emplace_alignment(prog, r))
     from . import compu
     run_as(run, "C03.R1", "C01.R9", lambda r: compu.linear_forms(prog, r, "C03.R1", "C03.R1"))
+    # a value outside the applicable range must not be encoded (it would decode to something else
+    # or not at all)
+    compu.conversion_guards(prog, run, "C01.R9")
 
 
 # ----------------------------------------------------------------------- R3 (key tables)
@@ -237,8 +241,68 @@ def _placeholder_width(prog: Program, run: Run, R: str = "C01.R2") -> None:
 
 
 # ----------------------------------------------------------------------- R1
+def _origin_window(prog: Program, run: Run, R: str = "C01.R1") -> None:
+    """Everything a composite object places relative to ITS origin is placed while the origin is
+    moved: no call that follows the restore of origin_byte_position may reach a method that
+    computes a position from the origin (`<state>.origin_byte_position + ...`)."""
+    positional: Dict[str, List[FuncInfo]] = {}
+    for g in prog.iter_functions():
+        S = _state_name(g)
+        if S is None:
+            continue
+        for x in walk_no_nested(g.node):
+            if isinstance(x, (ast.BinOp, ast.Compare)) and any(
+                    ast.unparse(y) == f"{S}.origin_byte_position" for y in ast.walk(x)):
+                positional.setdefault(g.name, []).append(g)
+                break
+    n = 0
+    for f in prog.iter_functions():
+        S = _state_name(f)
+        if S is None:
+            continue
+        tgt = f"{S}.origin_byte_position"
+        saves = {x.targets[0].id for x in walk_no_nested(f.node) if isinstance(x, ast.Assign) and
+                 ast.unparse(x.value) == tgt and isinstance(x.targets[0], ast.Name)}
+        restores = [w for w in _assigns_to(f.node, tgt) if isinstance(w.value, ast.Name) and
+                    w.value.id in saves]
+        if not restores:
+            continue
+        n += 1
+        cfg = CFG(f.node)
+        bad = False
+        for x in walk_no_nested(f.node):
+            if not (isinstance(x, ast.Call) and isinstance(x.func, ast.Attribute) and
+                    x.func.attr in positional):
+                continue
+            st = x
+            for s in walk_no_nested(f.node):
+                if isinstance(s, ast.stmt) and not isinstance(
+                        s, (ast.For, ast.While, ast.If, ast.With, ast.Try)) and any(
+                            y is x for y in ast.walk(s)):
+                    st = s
+            try:
+                sn = cfg.node_of(st)
+            except Exception:  # noqa: BLE001
+                continue
+            if any(cfg.dominates(cfg.node_of(r), sn) for r in restores):
+                bad = True
+                g = positional[x.func.attr][0]
+                run.violation(R, f"{f.module.rel}:{f.qual}", f"origin-restored-before-{x.func.attr}",
+                              f"`{ast.unparse(x)[:70]}` runs after the caller's origin was "
+                              f"restored, but {g.qual} positions its value relative to "
+                              f"{S}.origin_byte_position: inside a nested structure the value "
+                              "lands relative to the OUTER object",
+                              f"{f.module.rel}:{x.lineno}", stmt_key(st))
+        if not bad:
+            run.ok(R, f"{f.module.rel}:{f.qual}", "no call after the restore of the origin "
+                   "reaches a method that positions relative to the origin", f.loc)
+    if n < 8:
+        raise AnalysisError(f"origin window: only {n} functions restore the origin (expected >= 8)")
+
+
 def _pairing(prog: Program, run: Run) -> None:
     R = "C01.R1"
+    _origin_window(prog, run, R)
     n_origin = 0
     for f in prog.iter_functions():
         S = _state_name(f)
@@ -715,6 +779,61 @@ def _cases(f: FuncInfo) -> Dict[str, Set[str]]:
             out["else"] = set()
             cur = None
     return out
+
+
+def _derives_from(fn: ast.AST, e: ast.AST, callee: str, seen: Optional[Set[str]] = None) -> bool:
+    """``e`` contains a call of ``callee``, or a local name ALL of whose definitions do."""
+    seen = set(seen or ())
+    for n in ast.walk(e):
+        if isinstance(n, ast.Call) and call_name(n) == callee:
+            return True
+    for n in ast.walk(e):
+        if isinstance(n, ast.Name) and n.id not in seen:
+            defs = []
+            for x in walk_no_nested(fn):
+                if isinstance(x, ast.Assign) and any(isinstance(t, ast.Name) and t.id == n.id
+                                                     for t in x.targets):
+                    defs.append(x.value)
+                if isinstance(x, (ast.AnnAssign, ast.NamedExpr)) and isinstance(
+                        x.target, ast.Name) and x.target.id == n.id and x.value is not None:
+                    defs.append(x.value)
+            if defs and all(_derives_from(fn, v, callee, seen | {n.id}) for v in defs):
+                return True
+    return False
+
+
+def _decoded_value_source(prog: Program, run: Run) -> None:
+    """What a diag-coded type hands back comes out of DecodeState.extract_atomic_value(), which
+    is the one place that builds a value OF THE BASE DATA TYPE (``''`` vs ``b''`` vs ``0`` for
+    zero bits): a literal returned for a special case has the wrong type for some base type and
+    the compu method rejects it."""
+    R = "C01.R8"
+    n = 0
+    for c in prog.subclasses("DiagCodedType", strict=True):
+        f = c.methods.get("decode_from_pdu")
+        if f is None:
+            continue
+        for r in walk_no_nested(f.node):
+            if not isinstance(r, ast.Return):
+                continue
+            v = r.value
+            if v is None or isinstance(v, ast.Constant) and v.value is None or (
+                    isinstance(v, ast.Call) and call_name(v) == "cast" and any(
+                        isinstance(a, ast.Constant) and a.value is None for a in v.args)):
+                continue
+            n += 1
+            if _derives_from(f.node, v, "extract_atomic_value"):
+                run.ok(R, f"{c.name}.decode_from_pdu", f"`return {ast.unparse(v)[:40]}` derives "
+                       "from extract_atomic_value()", f"{f.module.rel}:{r.lineno}")
+            else:
+                run.violation(R, f"{c.name}.decode_from_pdu", "value-not-extracted",
+                              f"`{stmt_key(r)}` returns a value that was not built by "
+                              "DecodeState.extract_atomic_value(): its python type does not "
+                              "follow the BASE-DATA-TYPE (an empty text must be '', an empty "
+                              "byte field b''), so what the encoder accepted does not come back",
+                              f"{f.module.rel}:{r.lineno}", stmt_key(r))
+    if n < 4:
+        raise AnalysisError("decode_from_pdu of the diag-coded types: fewer than 4 returns found")
 
 
 def _case_coverage(prog: Program, run: Run) -> None:
